@@ -401,7 +401,8 @@ def check_table(env, params, rng, tier, full=False, light=False):
         # every op from shortly before the end of the primary data unit to the end of the file (the knot and extents HDUs are
         # small): this is where a size-dependent flush / close / reposition of a large table would sit
         wpos, first_after = 0, nops
-        dend = (len(final) // 2880 - 2 * (c.ndim + 1)) * 2880 if len(final) > 2880 * 2 * (c.ndim + 2) else 0
+        ext_blocks = sum(2 + (8 * (a + 6)) // 2880 for a in params["axes"]) + 2          # knot HDUs (header + data) and EXTENTS, generously
+        dend = max(0, len(final) - 2880 * (ext_blocks + 4))
         n_ = 0
         for o in ops:
             if o[0] in ("W", "S", "F", "C", "T"):
@@ -410,7 +411,7 @@ def check_table(env, params, rng, tier, full=False, light=False):
                     if wpos >= dend - 8192 and first_after == nops:
                         first_after = n_
                 n_ += 1
-        idx = sorted(set([0, 1] + list(range(max(0, first_after - 2), nops))))[:80]
+        idx = sorted(set([0, 1] + list(range(max(0, first_after - 4), nops))))[:140]
     for i in idx:
         runs.append({"kind": "stdio", "failop": i, "writer": "file"})
     for i in idx[:: max(1, len(idx) // 6)] + idx[-2:]:
@@ -464,6 +465,9 @@ def check_table(env, params, rng, tier, full=False, light=False):
                 cls = "close" if callname in ("ffclos", None) else callname
                 if callname is None and any(o[0] == "F" and o[1] != "0" for o in r["ops"]):
                     cls = "cfitsio-drops-fflush"     # fflush failed (glibc discards the buffered tail), cfitsio's ffflsh ignores it, fclose succeeds
+                fa_ops = [o for o in ops if o[0] in ("W", "S", "F", "C", "T")]
+                if callname is None and r["kind"] == "stdio" and not r.get("sticky") and 0 <= r.get("failop", -1) < len(fa_ops) and fa_ops[r["failop"]][0] == "S":
+                    cls = "cfitsio-ignores-fseek-error"   # a failing fseek: cfitsio's direct-write path for large arrays carries on at the wrong offset and reports nothing
                 once("report:%s-error-swallowed:%s" % (cls, r["writer"]), "%s reported SUCCESS with %s, but the file on disk is not the complete file (%d of %d bytes%s)" %
                      (r["writer"], what, len(ondisk), len(final), "" if len(ondisk) != len(final) else ", content differs"))
             else:
